@@ -27,7 +27,11 @@ def extend(register, PENDING):
       "Seeded values around every boundary (version -1,0,1,40,41,255; mask -1,0,7,8,'3',2.0,[1]; border -4..9; box_size -10..10) are offered at construction and by assignment at arbitrary points of a history. Out-of-range values must raise ValueError/TypeError at that point (box_size at the latest in make_image) and must not take effect (read-back plus later compiles matching the unchanged model); in-range values must be accepted and honoured by later output.",
       HIST_NOTE + " In-range is the property's own statement (sim/histsim.py in_range).",
       "DESIGN.md 3.5")
+    register("C17", "clisim",
+      "deterministic simulation of the qr command's process environment (argv bytes, chunked binary stdin, tty/pipe stdout, in-memory --output, exit status); every artefact decoded by an independent ISO 18004 reader; stdout-vs---output pairing",
+      "The real console_scripts.main() runs in a forked child with every environment input under the simulator's control: argument bytes as the OS hands them over (surrogateescape) or binary stdin delivered in seeded short reads through a real BufferedReader, stdout as pipe or tty (text layer and buffer over one recorded raw end, optional short writes), os.isatty from a simulated fd table, --output into an in-memory file system, exit status as the interpreter would compute it. The artefact (PNG via Pillow, SVG via the XML parser with shape/size checks per factory and drawer, half-block ASCII art) is turned into a matrix and decoded by an independent reader: recovered bytes must equal the input, recovered level the requested one, segment structure the requested threshold; --output bytes must equal stdout bytes for the same options; unknown factory/drawer/level must exit non-zero with nothing written anywhere.",
+      "Trusts: sim/isoread.py (independent reader incl. RS syndrome check, validated at development time on all 160 version/level pairs), Pillow's PNG decoder, the stdlib XML parser, and that in-process main() with substituted sys.stdin/stdout/argv/os.isatty/open behaves as the installed console script (thorough tier cross-checks a sample against real subprocesses). Sampling, not enumeration.",
+      "DESIGN.md 4.2")
     PENDING.update({
-        "C17": "claimed by design (DESIGN.md 4.2); engine clisim not yet committed",
         "C19": "claimed by design (DESIGN.md 4.1); engine threadsim not yet committed",
     })
